@@ -94,3 +94,129 @@ Proof.
   destruct H as [k [Hl [Hm Ho]]]. cbn [length Nat.add] in *. rewrite Hl. split; [lia|].
   destruct maxd as [m|]; [|exact I]. intros Hp. cbn [over] in Ho. apply Nat.ltb_ge in Ho. lia.
 Qed.
+
+(* ---- C02 with a prefix: the walk starts below the directory given ------------------------------------------------------------ *)
+(* sibling names are distinct (a file system guarantees it) *)
+Fixpoint names_unique (n : node) : Prop :=
+  match n with
+  | NDir kids => NoDup (map fst kids) /\
+                 (fix go (ks : list (name * node)) : Prop := match ks with [] => True | k :: ks' => names_unique (snd k) /\ go ks' end) kids
+  | _ => True
+  end.
+
+Fixpoint strip (prefix q : rpath) : option rpath :=
+  match prefix, q with
+  | [], _ => Some q
+  | c :: p', d :: q' => if str_eqb c d then strip p' q' else None
+  | _ :: _, [] => None
+  end.
+
+(* the entries that lie at or below [prefix], relative to it, in order *)
+Definition below (prefix : rpath) (l : list rpath) : list rpath :=
+  flat_map (fun q => match strip prefix q with Some r => [r] | None => [] end) l.
+
+Lemma str_eqb_refl : forall s, str_eqb s s = true.
+Proof. induction s as [|c s IH]; [reflexivity|]. cbn [str_eqb]. rewrite N.eqb_refl. exact IH. Qed.
+
+Lemma str_eqb_true : forall a b, str_eqb a b = true -> a = b.
+Proof.
+  induction a as [|c a IH]; intros [|d b] H; try reflexivity; try discriminate. cbn [str_eqb] in H. apply andb_prop in H.
+  destruct H as [Hc Hs]. apply N.eqb_eq in Hc. subst. f_equal. apply IH. exact Hs.
+Qed.
+
+Lemma all_entries_shift : forall n p, all_entries p n = map (app p) (all_entries [] n).
+Proof.
+  induction n as [|kids IH| |] using node_ind'; intros p; cbn [all_entries map app]; try (rewrite app_nil_r; reflexivity); [|reflexivity].
+  rewrite app_nil_r. f_equal. induction IH as [|k ks Hk _ IHks]; [reflexivity|]. rewrite map_app. rewrite IHks. f_equal.
+  rewrite (Hk (p ++ [fst k])), (Hk [fst k]). rewrite map_map. apply map_ext. intros q. rewrite <- app_assoc. reflexivity.
+Qed.
+
+Lemma below_app : forall prefix a b, below prefix (a ++ b) = below prefix a ++ below prefix b.
+Proof. intros. unfold below. apply flat_map_app. Qed.
+
+Lemma below_cons_map : forall c p' d l, below (c :: p') (map (cons d) l) = if str_eqb c d then below p' l else [].
+Proof.
+  intros c p' d l. unfold below. destruct (str_eqb c d) eqn:E.
+  - induction l as [|q l IH]; [reflexivity|]. cbn [map flat_map]. rewrite IH. cbn [strip]. rewrite E. reflexivity.
+  - induction l as [|q l IH]; [reflexivity|]. cbn [map flat_map]. rewrite IH. cbn [strip]. rewrite E. reflexivity.
+Qed.
+
+Theorem lookup_entries : forall prefix root, names_unique root ->
+  below prefix (all_entries [] root) = all_entries [] (lookup root prefix).
+Proof.
+  induction prefix as [|c p' IH]; intros root Hu.
+  - cbn [lookup]. unfold below. cbn [strip]. induction (all_entries [] root) as [|q l IHl]; [reflexivity|]. cbn [flat_map app]. rewrite IHl. reflexivity.
+  - destruct root as [|kids| |]; cbn [lookup all_entries]; try reflexivity.
+    cbn [names_unique] in Hu. destruct Hu as [Hnd Hkids].
+    match goal with |- below _ ([] :: ?l) = _ => change (below (c :: p') ([] :: l)) with (below (c :: p') l) end.
+    induction kids as [|k ks IHks]; [reflexivity|]. cbn [map] in Hnd. inversion Hnd as [|? ? Hnotin Hnd']; subst. destruct Hkids as [Hk Hks].
+    rewrite below_app. cbn [app]. rewrite (all_entries_shift (snd k) [fst k]). cbn [app].
+    rewrite below_cons_map. cbn [find]. destruct (str_eqb (fst k) c) eqn:Ek.
+    + apply str_eqb_true in Ek. subst c. rewrite str_eqb_refl. rewrite (IH (snd k) Hk).
+      (* no other child has this name *)
+      assert (Hrest : below (fst k :: p') ((fix go (ks0 : list (name * node)) : list rpath :=
+                        match ks0 with [] => [] | k0 :: ks' => all_entries [fst k0] (snd k0) ++ go ks' end) ks) = []).
+      { clear -Hnotin. induction ks as [|k2 ks IHk]; [reflexivity|]. rewrite below_app. rewrite (all_entries_shift (snd k2) [fst k2]). cbn [app].
+        rewrite below_cons_map. destruct (str_eqb (fst k) (fst k2)) eqn:E; [apply str_eqb_true in E; exfalso; apply Hnotin; cbn [map In]; left; symmetry; exact E|].
+        cbn [app]. apply IHk. intros Hin. apply Hnotin. cbn [map In]. right. exact Hin. }
+      rewrite Hrest. cbn [find]. unfold name in *. rewrite ?str_eqb_refl. apply app_nil_r.
+    + assert (Ekc : str_eqb c (fst k) = false).
+      { destruct (str_eqb c (fst k)) eqn:E; [apply str_eqb_true in E; subst; rewrite str_eqb_refl in Ek; discriminate|reflexivity]. }
+      rewrite Ekc. cbn [app find]. unfold name in *. rewrite Ek. apply IHks; assumption.
+Qed.
+
+Lemma nosep_rev : forall s, nosep (rev s) = nosep s.
+Proof.
+  induction s as [|c s IH]; [reflexivity|]. cbn [rev]. rewrite nosep_app. cbn [nosep forallb]. fold (nosep s). rewrite IH.
+  destruct (negb (c =? SEP)%N), (nosep s); reflexivity.
+Qed.
+
+Lemma split_aux_valid : forall s cur, nosep cur = true -> Forall valid_name (split_aux s cur).
+Proof.
+  induction s as [|c s IH]; intros cur Hc; cbn [split_aux].
+  - destruct cur as [|d cur'] eqn:E; [constructor|]. cbn [is_nil]. constructor; [|constructor]. split.
+    + intros H. apply (f_equal (@length char)) in H. rewrite rev_length in H. discriminate.
+    + rewrite nosep_rev. exact Hc.
+  - destruct (N.eqb_spec c SEP) as [->|Hne].
+    + destruct cur as [|d cur'] eqn:E; cbn [is_nil]; [apply IH; reflexivity|]. constructor; [|apply IH; reflexivity]. split.
+      * intros H. apply (f_equal (@length char)) in H. rewrite rev_length in H. discriminate.
+      * rewrite nosep_rev. exact Hc.
+    + apply IH. cbn [nosep forallb]. fold (nosep cur). rewrite Hc. apply N.eqb_neq in Hne. rewrite Hne. reflexivity.
+Qed.
+
+Lemma split_components_valid : forall s, Forall valid_name (split_components s).
+Proof. intros s. apply split_aux_valid. reflexivity. Qed.
+
+Lemma lookup_valid : forall p root, names_valid root -> names_valid (lookup root p).
+Proof.
+  induction p as [|c p IH]; intros root H; [exact H|]. destruct root as [|kids| |]; cbn [lookup]; try exact I.
+  cbn [names_valid] in H. induction kids as [|k ks IHk]; [exact I|]. cbn [find]. destruct H as [_ [Hk Hks]].
+  unfold name in *. destruct (str_eqb (fst k) c); [apply IH; exact Hk|apply IHk; exact Hks].
+Qed.
+
+Section PrefixedGlobWalk.
+Variable orbit : char -> list char.
+Hypothesis orbit_nosep : forall c d, In d (orbit c) -> d <> SEP.
+Variable t : tok.
+Hypothesis Hlits : lits_nosep t = true.
+Variable complete : str -> bool.
+Hypothesis Hcomplete : forall w, complete w = true <-> sem orbit (encode t) w.
+Variable progs : list (name -> bool).
+Hypothesis Hprogs : Forall2 (fun (pr : name -> bool) r => forall w, pr w = true <-> sem orbit r w) progs (component_programs t).
+
+(* C02 for a glob with an invariant prefix: the walk starts at the directory the prefix names, below the directory given;
+   what it yields - relative to that starting directory - are exactly the entries of the *whole* tree that lie at or below
+   the prefix and that the complete program matches (their paths taken from the directory given) *)
+Theorem prefixed_glob_walk_complete : forall root prefix_text,
+  names_valid root -> names_unique root ->
+  glob_walk_root root prefix_text = lookup root (split_components prefix_text) ->
+  yields (glob_walk root prefix_text 0 None progs complete []) =
+  filter (keeps (split_components prefix_text) progs complete) (below (split_components prefix_text) (all_entries [] root)).
+Proof.
+  intros root ptext Hv Hu Hroot. unfold glob_walk, window_at_pivot. cbn [Nat.sub]. rewrite Hroot.
+  rewrite (glob_walk_complete orbit orbit_nosep t Hlits complete Hcomplete progs Hprogs (split_components ptext) (split_components_valid ptext)
+             (lookup root (split_components ptext)) (lookup_valid _ _ Hv)).
+  rewrite (lookup_entries (split_components ptext) root Hu). reflexivity.
+Qed.
+
+End PrefixedGlobWalk.
